@@ -37,6 +37,20 @@ theorem eq_of_name_eq {t : Table ν} (h : NamesU t) {a b : Row ν} (ha : a ∈ t
       | head => exact absurd hn.symm (h.1 _ ha)
       | tail _ hb => exact ih h.2 ha hb
 
+theorem eq_of_rid_eq {t : Table ν} (h : RidsU t) {a b : Row ν} (ha : a ∈ t) (hb : b ∈ t)
+    (hn : a.rid = b.rid) : a = b := by
+  induction t with
+  | nil => cases ha
+  | cons x r ih =>
+    rw [RidsU, List.pairwise_cons] at h
+    cases ha with
+    | head => cases hb with
+      | head => rfl
+      | tail _ hb => exact absurd hn (h.1 _ hb)
+    | tail _ ha => cases hb with
+      | head => exact absurd hn.symm (h.1 _ ha)
+      | tail _ hb => exact ih h.2 ha hb
+
 theorem sameScope_comm (sc : Bool) (a b : Nat) : sameScope sc a b = sameScope sc b a := by
   cases sc
   · simp [sameScope]
@@ -424,6 +438,68 @@ theorem lost_apply {sc : Bool} {T : Tab ν} (f : Table ν → Table ν) {k : Nat
   simp only [Tab.apply, List.mem_filter] at h
   exact h.1
 
+/-! #### the columns other than `is_default` are never changed by a statement -/
+
+def SameCols (r r' : Row ν) : Prop := r.rid = r'.rid ∧ r.owner = r'.owner ∧ r.name = r'.name
+
+/-- every row of `t` is still in `t'` (up to its flag) -/
+def ColsSub (t t' : Table ν) : Prop := ∀ r ∈ t, ∃ r' ∈ t', SameCols r r'
+
+theorem ColsSub.refl (t : Table ν) : ColsSub t t := fun r h => ⟨r, h, rfl, rfl, rfl⟩
+
+theorem sdRow_same (sc : Bool) (n : ν) (r x : Row ν) : SameCols x (sdRow sc n r x) :=
+  ⟨(sdRow_rid sc n r x).symm, (sdRow_owner sc n r x).symm, (sdRow_name sc n r x).symm⟩
+
+theorem setDefaultCF_fwd (sc : Bool) (n : ν) (t : Table ν) : ColsSub (setDefaultCF sc n t) t := by
+  intro r' h
+  cases hf : t.find? (fun r => r.name = n) with
+  | none => rw [setDefaultCF, hf] at h; exact ⟨r', h, rfl, rfl, rfl⟩
+  | some r0 =>
+    rw [setDefaultCF_some hf, List.mem_map] at h
+    obtain ⟨r, hr, rfl⟩ := h
+    have := sdRow_same sc n r0 r
+    exact ⟨r, hr, this.1.symm, this.2.1.symm, this.2.2.symm⟩
+
+theorem setDefaultCF_bwd (sc : Bool) (n : ν) (t : Table ν) : ColsSub t (setDefaultCF sc n t) := by
+  intro r h
+  cases hf : t.find? (fun r => r.name = n) with
+  | none => rw [setDefaultCF, hf]; exact ⟨r, h, rfl, rfl, rfl⟩
+  | some r0 =>
+    rw [setDefaultCF_some hf]
+    exact ⟨_, List.mem_map_of_mem h, sdRow_same sc n r0 r⟩
+
+theorem insertCF_bwd {sc : Bool} {o : Nat} {n : ν} {t t' : Table ν} (hi : insertCF sc o n t = some t') :
+    ColsSub t t' := by
+  unfold insertCF at hi
+  split at hi
+  · cases hi
+  · simp only [Option.some.injEq] at hi
+    subst hi
+    intro r h
+    split
+    · exact ⟨r, List.mem_append_left _ h, rfl, rfl, rfl⟩
+    · exact setDefaultCF_bwd sc n _ r (List.mem_append_left _ h)
+
+theorem insertCF_fwd {sc : Bool} {o : Nat} {n : ν} {t t' : Table ν} (hi : insertCF sc o n t = some t')
+    {r' : Row ν} (h : r' ∈ t') : (∃ r ∈ t, SameCols r r') ∨ (r'.owner = o ∧ r'.name = n) := by
+  unfold insertCF at hi
+  split at hi
+  · cases hi
+  · simp only [Option.some.injEq] at hi
+    subst hi
+    have key : ∀ x ∈ t ++ [newRow o n t], (∃ r ∈ t, SameCols r x) ∨ (x.owner = o ∧ x.name = n) := by
+      intro x hx
+      rw [List.mem_append] at hx
+      rcases hx with hx | hx
+      · exact Or.inl ⟨x, hx, rfl, rfl, rfl⟩
+      · simp at hx; subst hx; exact Or.inr ⟨rfl, rfl⟩
+    split at h
+    · exact key r' h
+    · obtain ⟨x, hx, hs⟩ := setDefaultCF_fwd sc n _ r' h
+      rcases key x hx with ⟨r, hr, hrs⟩ | ⟨h1, h2⟩
+      · exact Or.inl ⟨r, hr, hrs.1.trans hs.1.symm, hrs.2.1.trans hs.2.1.symm, hrs.2.2.trans hs.2.2.symm⟩
+      · exact Or.inr ⟨hs.2.1.trans h1, hs.2.2.trans h2⟩
+
 end TableLevel
 /-! ### Part 2: Hoare logic for `M` (postcondition for normal return, postcondition per exception) -/
 
@@ -532,6 +608,65 @@ structure DbInv (d : Db) : Prop where
   keys : TabInv true d.keys
   certs : TabInv true d.certs
 
+
+/-- cross-table consistency: every key row hangs below the identity row it is named after, every
+    certificate row below an existing key row (no orphans: a re-used row id never adopts leftovers) -/
+structure Linked (d : Db) : Prop where
+  keyHome : ∀ k ∈ d.keys.rows, ∃ i ∈ d.ids.rows, i.rid = k.owner ∧ i.name = k.name.idn
+  certKey : ∀ c ∈ d.certs.rows, ∃ k ∈ d.keys.rows, k.rid = c.owner
+
+theorem Linked.empty : Linked Db.empty := ⟨(fun _ h => by cases h), (fun _ h => by cases h)⟩
+
+/-- a change that keeps every identity and key row (up to flags), and whose new key / certificate rows have
+    a parent -/
+theorem Linked.transfer {d d' : Db} (h : Linked d)
+    (hi : ColsSub d.ids.rows d'.ids.rows) (hkb : ColsSub d.keys.rows d'.keys.rows)
+    (hk : ∀ k' ∈ d'.keys.rows, (∃ k ∈ d.keys.rows, SameCols k k') ∨
+      ∃ i ∈ d.ids.rows, i.rid = k'.owner ∧ i.name = k'.name.idn)
+    (hc : ∀ c' ∈ d'.certs.rows, (∃ c ∈ d.certs.rows, SameCols c c') ∨ ∃ k ∈ d.keys.rows, k.rid = c'.owner) :
+    Linked d' := by
+  refine ⟨fun k' hk' => ?_, fun c' hc' => ?_⟩
+  · have : ∃ i ∈ d.ids.rows, i.rid = k'.owner ∧ i.name = k'.name.idn := by
+      rcases hk k' hk' with ⟨k, hkm, hs⟩ | h'
+      · obtain ⟨i, him, h1, h2⟩ := h.keyHome k hkm
+        exact ⟨i, him, h1.trans hs.2.1, by rw [h2, hs.2.2]⟩
+      · exact h'
+    obtain ⟨i, him, h1, h2⟩ := this
+    obtain ⟨i', hi'm, hs⟩ := hi i him
+    exact ⟨i', hi'm, hs.1.symm.trans h1, hs.2.2.symm.trans h2⟩
+  · have : ∃ k ∈ d.keys.rows, k.rid = c'.owner := by
+      rcases hc c' hc' with ⟨c, hcm, hs⟩ | h'
+      · obtain ⟨k, hkm, h1⟩ := h.certKey c hcm
+        exact ⟨k, hkm, h1.trans hs.2.1⟩
+      · exact h'
+    obtain ⟨k, hkm, h1⟩ := this
+    obtain ⟨k', hk'm, hs⟩ := hkb k hkm
+    exact ⟨k', hk'm, hs.1.symm.trans h1⟩
+
+theorem Linked.delCerts {d : Db} (h : Linked d) (p : Row CertName → Bool) :
+    Linked { d with certs := d.certs.delete true p } :=
+  ⟨h.keyHome, fun c hc => h.certKey c (List.mem_filter.mp hc).1⟩
+
+theorem Linked.delKeys {d : Db} (h : Linked d) (p : Row KeyName → Bool)
+    (hp : ∀ c ∈ d.certs.rows, ∀ kr ∈ d.keys.rows, p kr = true → c.owner ≠ kr.rid) :
+    Linked { d with keys := d.keys.delete true p } := by
+  refine ⟨fun k hk => h.keyHome k (List.mem_filter.mp hk).1, fun c hc => ?_⟩
+  obtain ⟨k, hkm, h1⟩ := h.certKey c hc
+  refine ⟨k, List.mem_filter.mpr ⟨hkm, ?_⟩, h1⟩
+  cases hpk : p k
+  · rfl
+  · exact absurd h1.symm (hp c hc k hkm hpk)
+
+theorem Linked.delIds {d : Db} (h : Linked d) (p : Row Nat → Bool)
+    (hp : ∀ k ∈ d.keys.rows, ∀ ir ∈ d.ids.rows, p ir = true → k.owner ≠ ir.rid) :
+    Linked { d with ids := d.ids.delete false p } := by
+  refine ⟨fun k hk => ?_, h.certKey⟩
+  obtain ⟨i, him, h1, h2⟩ := h.keyHome k hk
+  refine ⟨i, List.mem_filter.mpr ⟨him, ?_⟩, h1, h2⟩
+  cases hpi : p i
+  · rfl
+  · exact absurd h1.symm (hp k hk i him hpi)
+
 /-- properties of (TPM contents, key-id counter) that survive generating a fresh key and deleting keys -/
 structure JOk (J : List KeyName → Nat → Prop) : Prop where
   app : ∀ t n m, J t n → J (t ++ [⟨m, n⟩]) (n + 1)
@@ -548,6 +683,8 @@ structure SysInv (J : List KeyName → Nat → Prop) (s : Sys) : Prop where
   /-- key ids in the TPM and in the key tables have been generated -/
   kids : ∀ k ∈ s.tpm, k.kid < s.nextKid
   keyKids : (∀ r ∈ s.cur.keys.rows, r.name.kid < s.nextKid) ∧ (∀ r ∈ s.com.keys.rows, r.name.kid < s.nextKid)
+  /-- no orphan rows, keys hang below the identity they are named after -/
+  link : Linked s.cur ∧ Linked s.com
   extra : J s.tpm s.nextKid
 
 variable {J : List KeyName → Nat → Prop}
@@ -558,12 +695,13 @@ theorem SysInv.init (h : J [] 0) : SysInv J Sys.init :=
     cache := fun _ h => by cases h
     kids := fun _ h => by cases h
     keyKids := ⟨(fun _ h => by cases h), (fun _ h => by cases h)⟩
+    link := ⟨Linked.empty, Linked.empty⟩
     extra := h }
 
-theorem SysInv.fi : FI (SysInv J) := fun _ _ h => ⟨h.cur, h.com, h.cache, h.kids, h.keyKids, h.extra⟩
+theorem SysInv.fi : FI (SysInv J) := fun _ _ h => ⟨h.cur, h.com, h.cache, h.kids, h.keyKids, h.link, h.extra⟩
 
 theorem SysInv.withJ {J' : List KeyName → Nat → Prop} {s : Sys} (h : SysInv J s) (h' : J' s.tpm s.nextKid) :
-    SysInv J' s := ⟨h.cur, h.com, h.cache, h.kids, h.keyKids, h'⟩
+    SysInv J' s := ⟨h.cur, h.com, h.cache, h.kids, h.keyKids, h.link, h'⟩
 
 theorem updIds_eq : updSetDefault (ν := Nat) (trs .identities) = setDefaultCF false := by
   funext n t; exact upd_ids n t
@@ -574,13 +712,15 @@ theorem updCerts_eq : updSetDefault (ν := CertName) (trs .certificates) = setDe
 
 /-- a database write that keeps the per-table invariants and does not add key rows -/
 theorem pres_modCur {f : Db → Db} (hf : ∀ d, DbInv d → DbInv (f d))
-    (hk : ∀ d, ∀ r ∈ (f d).keys.rows, r ∈ d.keys.rows) : Pres (SysInv J) (modCur f) :=
-  Pres.modS fun s h => ⟨hf _ h.cur, h.com, h.cache, h.kids, ⟨fun r hr => h.keyKids.1 r (hk _ r hr), h.keyKids.2⟩, h.extra⟩
+    (hk : ∀ d, ∀ r ∈ (f d).keys.rows, r ∈ d.keys.rows) (hl : ∀ d, DbInv d → Linked d → Linked (f d)) :
+    Pres (SysInv J) (modCur f) :=
+  Pres.modS fun s h => ⟨hf _ h.cur, h.com, h.cache, h.kids, ⟨fun r hr => h.keyKids.1 r (hk _ r hr), h.keyKids.2⟩,
+    ⟨hl _ h.cur h.link.1, h.link.2⟩, h.extra⟩
 
 theorem pres_tick : Pres (SysInv J) tick := Pres.tick SysInv.fi
 
 theorem pres_commit : Pres (SysInv J) commit :=
-  Pres.bind pres_tick fun _ => Pres.modS fun _ h => ⟨h.cur, h.cur, h.cache, h.kids, ⟨h.keyKids.1, h.keyKids.1⟩, h.extra⟩
+  Pres.bind pres_tick fun _ => Pres.modS fun _ h => ⟨h.cur, h.cur, h.cache, h.kids, ⟨h.keyKids.1, h.keyKids.1⟩, ⟨h.link.1, h.link.1⟩, h.extra⟩
 
 theorem setDefaultCF_mem_names {ν : Type} [DecidableEq ν] {sc : Bool} {n : ν} {t : Table ν} {r : Row ν}
     (h : r ∈ setDefaultCF sc n t) : ∃ r' ∈ t, r'.name = r.name := by
@@ -591,18 +731,31 @@ theorem setDefaultCF_mem_names {ν : Type} [DecidableEq ν] {sc : Bool} {n : ν}
 
 theorem pres_execSetDefaultId (n : Nat) : Pres (SysInv J) (execSetDefaultId n) :=
   Pres.bind pres_tick fun _ => pres_modCur (fun d h => by
-    rw [updIds_eq]; exact ⟨h.ids.setDefault n, h.keys, h.certs⟩) (fun _ _ h => h)
+    rw [updIds_eq]; exact ⟨h.ids.setDefault n, h.keys, h.certs⟩) (fun _ _ h => h) (fun d _ hl => by
+    rw [updIds_eq]
+    exact hl.transfer (setDefaultCF_bwd _ _ _) (ColsSub.refl _) (fun k hk => Or.inl ⟨k, hk, rfl, rfl, rfl⟩)
+      (fun c hc => Or.inl ⟨c, hc, rfl, rfl, rfl⟩))
 theorem pres_execSetDefaultKey (k : KeyName) : Pres (SysInv J) (execSetDefaultKey k) :=
   Pres.bind pres_tick fun _ => Pres.modS fun s h => by
-    refine ⟨?_, h.com, h.cache, h.kids, ⟨fun r hr => ?_, h.keyKids.2⟩, h.extra⟩
+    refine ⟨?_, h.com, h.cache, h.kids, ⟨fun r hr => ?_, h.keyKids.2⟩, ⟨?_, h.link.2⟩, h.extra⟩
     · show DbInv { s.cur with keys := _ }
       rw [updKeys_eq]; exact ⟨h.cur.ids, h.cur.keys.setDefault k, h.cur.certs⟩
     · simp only [Tab.apply, updKeys_eq] at hr
       obtain ⟨r', hr', e⟩ := setDefaultCF_mem_names hr
       rw [← e]; exact h.keyKids.1 r' hr'
+    · show Linked { s.cur with keys := _ }
+      rw [updKeys_eq]
+      refine h.link.1.transfer (ColsSub.refl _) (setDefaultCF_bwd _ _ _) (fun k' hk' => ?_)
+        (fun c hc => Or.inl ⟨c, hc, rfl, rfl, rfl⟩)
+      obtain ⟨k0, hk0, hs⟩ := setDefaultCF_fwd _ _ _ k' hk'
+      exact Or.inl ⟨k0, hk0, hs.1.symm, hs.2.1.symm, hs.2.2.symm⟩
 theorem pres_execSetDefaultCert (c : CertName) : Pres (SysInv J) (execSetDefaultCert c) :=
   Pres.bind pres_tick fun _ => pres_modCur (fun d h => by
-    rw [updCerts_eq]; exact ⟨h.ids, h.keys, h.certs.setDefault c⟩) (fun _ _ h => h)
+    rw [updCerts_eq]; exact ⟨h.ids, h.keys, h.certs.setDefault c⟩) (fun _ _ h => h) (fun d _ hl => by
+    rw [updCerts_eq]
+    refine hl.transfer (ColsSub.refl _) (ColsSub.refl _) (fun k hk => Or.inl ⟨k, hk, rfl, rfl, rfl⟩) (fun c' hc' => ?_)
+    obtain ⟨c0, hc0, hs⟩ := setDefaultCF_fwd _ _ _ c' hc'
+    exact Or.inl ⟨c0, hc0, hs.1.symm, hs.2.1.symm, hs.2.2.symm⟩)
 
 theorem pres_execInsertId (n : Nat) : Pres (SysInv J) (execInsertId n) := by
   refine Pres.bind pres_tick fun _ => Triple.bind (Q' := fun a s => SysInv J s ∧ a = s) Triple.getS fun a => ?_
@@ -612,7 +765,9 @@ theorem pres_execInsertId (n : Nat) : Pres (SysInv J) (execInsertId n) := by
     refine Triple.modS fun s h => ?_
     obtain ⟨h, rfl⟩ := h
     rw [ins_ids] at ht
-    exact ⟨⟨h.cur.ids.insert ht, h.cur.keys, h.cur.certs⟩, h.com, h.cache, h.kids, h.keyKids, h.extra⟩
+    refine ⟨⟨h.cur.ids.insert ht, h.cur.keys, h.cur.certs⟩, h.com, h.cache, h.kids, h.keyKids, ⟨?_, h.link.2⟩, h.extra⟩
+    exact h.link.1.transfer (d' := { a.cur with ids := a.cur.ids.apply false fun _ => t }) (insertCF_bwd ht)
+      (ColsSub.refl _) (fun k hk => Or.inl ⟨k, hk, rfl, rfl, rfl⟩) (fun c hc => Or.inl ⟨c, hc, rfl, rfl, rfl⟩)
 
 theorem insertCF_mem_names {ν : Type} [DecidableEq ν] {sc : Bool} {o : Nat} {n : ν} {t t' : Table ν} {r : Row ν}
     (hi : insertCF sc o n t = some t') (h : r ∈ t') : r.name = n ∨ ∃ r' ∈ t, r'.name = r.name := by
@@ -623,24 +778,36 @@ theorem insertCF_mem_names {ν : Type} [DecidableEq ν] {sc : Bool} {o : Nat} {n
     exact Or.inr ⟨r', hr', e⟩
   · simp at h1; exact Or.inl h1
 
-/-- inserting a key row needs its key id to have been generated -/
+/-- the identity row `o` below which a key named `k` may be inserted -/
+def KeyParent (o : Nat) (k : KeyName) (s : Sys) : Prop := ∃ i ∈ s.cur.ids.rows, i.rid = o ∧ i.name = k.idn
+
+/-- inserting a key row needs its key id to have been generated, and its parent identity row -/
 theorem triple_execInsertKey (o : Nat) (k : KeyName) :
-    Triple (fun s => SysInv J s ∧ k.kid < s.nextKid) (execInsertKey o k) (fun _ => SysInv J) (fun _ => SysInv J) := by
-  refine Triple.bind (Q' := fun _ s => SysInv J s ∧ k.kid < s.nextKid)
-    (Triple.conseq (Triple.tick (P := fun s => SysInv J s ∧ k.kid < s.nextKid) fun s f h => ⟨SysInv.fi s f h.1, h.2⟩)
+    Triple (fun s => SysInv J s ∧ k.kid < s.nextKid ∧ KeyParent o k s) (execInsertKey o k)
+      (fun _ => SysInv J) (fun _ => SysInv J) := by
+  refine Triple.bind (Q' := fun _ s => SysInv J s ∧ k.kid < s.nextKid ∧ KeyParent o k s)
+    (Triple.conseq (Triple.tick (P := fun s => SysInv J s ∧ k.kid < s.nextKid ∧ KeyParent o k s)
+      fun s f h => ⟨SysInv.fi s f h.1, h.2⟩)
       (fun _ h => h) (fun _ _ h => h) (fun _ _ h => h.1)) fun _ => ?_
-  refine Triple.bind (Q' := fun a s => (SysInv J s ∧ k.kid < s.nextKid) ∧ a = s) Triple.getS fun a => ?_
+  refine Triple.bind (Q' := fun a s => (SysInv J s ∧ k.kid < s.nextKid ∧ KeyParent o k s) ∧ a = s) Triple.getS fun a => ?_
   split
   · exact Triple.raise fun _ h => h.1.1
   · rename_i t ht
     refine Triple.modS fun s h => ?_
-    obtain ⟨⟨h, hk⟩, rfl⟩ := h
+    obtain ⟨⟨h, hk, hpar⟩, rfl⟩ := h
     rw [ins_keys] at ht
-    refine ⟨⟨h.cur.ids, h.cur.keys.insert ht, h.cur.certs⟩, h.com, h.cache, h.kids, ⟨fun r hr => ?_, h.keyKids.2⟩, h.extra⟩
-    simp only [Tab.apply] at hr
-    rcases insertCF_mem_names ht hr with e | ⟨r', hr', e⟩
-    · rw [e]; exact hk
-    · rw [← e]; exact h.keyKids.1 r' hr'
+    refine ⟨⟨h.cur.ids, h.cur.keys.insert ht, h.cur.certs⟩, h.com, h.cache, h.kids, ⟨fun r hr => ?_, h.keyKids.2⟩,
+      ⟨?_, h.link.2⟩, h.extra⟩
+    · simp only [Tab.apply] at hr
+      rcases insertCF_mem_names ht hr with e | ⟨r', hr', e⟩
+      · rw [e]; exact hk
+      · rw [← e]; exact h.keyKids.1 r' hr'
+    · refine h.link.1.transfer (d' := { a.cur with keys := a.cur.keys.apply true fun _ => t }) (ColsSub.refl _)
+        (insertCF_bwd ht) (fun k' hk' => ?_) (fun c hc => Or.inl ⟨c, hc, rfl, rfl, rfl⟩)
+      rcases insertCF_fwd ht hk' with ⟨k0, hk0, hs⟩ | ⟨h1, h2⟩
+      · exact Or.inl ⟨k0, hk0, hs⟩
+      · obtain ⟨i, hi, hi1, hi2⟩ := hpar
+        exact Or.inr ⟨i, hi, hi1.trans h1.symm, by rw [hi2, h2]⟩
 
 theorem pres_execInsertCert (k : KeyName) (c : CertName) : Pres (SysInv J) (execInsertCert k c) := by
   refine Pres.bind pres_tick fun _ => Triple.bind (Q' := fun a s => SysInv J s ∧ a = s) Triple.getS fun a => ?_
@@ -651,11 +818,38 @@ theorem pres_execInsertCert (k : KeyName) (c : CertName) : Pres (SysInv J) (exec
     · rename_i t ht
       refine Triple.modS fun s h => ?_
       obtain ⟨h, rfl⟩ := h
+      rename_i kr hkr _
       rw [ins_certs] at ht
-      exact ⟨⟨h.cur.ids, h.cur.keys, h.cur.certs.insert ht⟩, h.com, h.cache, h.kids, h.keyKids, h.extra⟩
+      refine ⟨⟨h.cur.ids, h.cur.keys, h.cur.certs.insert ht⟩, h.com, h.cache, h.kids, h.keyKids, ⟨?_, h.link.2⟩, h.extra⟩
+      refine h.link.1.transfer (d' := { a.cur with certs := a.cur.certs.apply true fun _ => t }) (ColsSub.refl _)
+        (ColsSub.refl _) (fun k hk => Or.inl ⟨k, hk, rfl, rfl, rfl⟩) (fun c' hc' => ?_)
+      rcases insertCF_fwd ht hc' with ⟨c0, hc0, hs⟩ | ⟨h1, _⟩
+      · exact Or.inl ⟨c0, hc0, hs⟩
+      · exact Or.inr ⟨kr, List.mem_of_find?_eq_some hkr, h1.symm⟩
 
 theorem pres_lookupId (n : Nat) : Pres (SysInv J) (lookupId n) :=
   Pres.bind Pres.getS fun _ => Pres.ofOpt _ _
+
+theorem triple_lookupId (n : Nat) :
+    Triple (SysInv J) (lookupId n) (fun i s => SysInv J s ∧ i ∈ s.cur.ids.rows ∧ i.name = n) (fun _ => SysInv J) := by
+  unfold lookupId
+  refine Triple.bind (Q' := fun a s => SysInv J s ∧ a = s) Triple.getS fun a => ?_
+  refine Triple.ofOpt (fun i s ho h => ?_) (fun _ _ h => h.1)
+  obtain ⟨h, rfl⟩ := h
+  have := List.find?_some ho
+  exact ⟨h, List.mem_of_find?_eq_some ho, by simpa using this⟩
+
+theorem triple_lookupKey (k : KeyName) :
+    Triple (SysInv J) (lookupKey k) (fun kr s => SysInv J s ∧ kr ∈ s.cur.keys.rows ∧ kr.name = k)
+      (fun _ => SysInv J) := by
+  unfold lookupKey
+  refine Triple.bind (pres_lookupId _) fun i => ?_
+  refine Triple.bind (Q' := fun a s => SysInv J s ∧ a = s) Triple.getS fun a => ?_
+  refine Triple.ofOpt (fun kr s ho h => ?_) (fun _ _ h => h.1)
+  obtain ⟨h, rfl⟩ := h
+  have := List.find?_some ho
+  simp only [Bool.and_eq_true, decide_eq_true_eq] at this
+  exact ⟨h, List.mem_of_find?_eq_some ho, this.1⟩
 
 theorem pres_lookupKey (k : KeyName) : Pres (SysInv J) (lookupKey k) :=
   Pres.bind (pres_lookupId _) fun _ => Pres.bind Pres.getS fun _ => Pres.ofOpt _ _
@@ -672,12 +866,23 @@ theorem pres_newIdentity (n : Nat) : Pres (SysInv J) (newIdentity n) := by
 
 theorem pres_newKey (hJ : JOk J) (n : Nat) (bad : Bool) : Pres (SysInv J) (newKey n bad) := by
   unfold newKey
-  refine Pres.bind (pres_lookupId n) fun i => Pres.bind pres_tick fun _ =>
-    Pres.bind (Pres.raiseIf _ _) fun _ =>
-    Triple.bind (Q' := fun a s => SysInv J s ∧ a = s) Triple.getS fun a => ?_
-  refine Triple.bind (Q' := fun _ s => SysInv J s ∧ a.nextKid < s.nextKid) (Triple.modS fun s h => ?_) fun _ => ?_
-  · obtain ⟨h, rfl⟩ := h
-    refine ⟨⟨h.cur, h.com, fun e he => ?_, fun k hk => ?_, ⟨fun r hr => ?_, fun r hr => ?_⟩, hJ.app _ _ _ h.extra⟩, ?_⟩
+  refine Triple.bind (triple_lookupId n) fun i => ?_
+  -- the parent row stays where it is until the key row is inserted
+  let A : Sys → Prop := fun s => SysInv J s ∧ i ∈ s.cur.ids.rows ∧ i.name = n
+  have fiA : FI A := fun s f h => ⟨SysInv.fi s f h.1, h.2⟩
+  have tickA : Triple A Keychain.tick (fun _ => A) (fun _ => SysInv J) :=
+    Triple.conseq (Triple.tick fiA) (fun _ h => h) (fun _ _ h => h) (fun _ _ h => h.1)
+  have raiseIfA : ∀ c e, Triple A (raiseIf c e) (fun _ => A) (fun _ => SysInv J) := by
+    intro c e; unfold raiseIf; split
+    · exact Triple.raise fun _ h => h.1
+    · exact Triple.pure fun _ h => h
+  refine Triple.bind (Q' := fun _ => A) tickA fun _ => Triple.bind (Q' := fun _ => A) (raiseIfA _ _) fun _ =>
+    Triple.bind (Q' := fun a s => A s ∧ a = s) Triple.getS fun a => ?_
+  let B : Sys → Prop := fun s => A s ∧ a.nextKid < s.nextKid
+  have fiB : FI B := fun s f h => ⟨fiA s f h.1, h.2⟩
+  refine Triple.bind (Q' := fun _ => B) (Triple.modS fun s h => ?_) fun _ => ?_
+  · obtain ⟨⟨h, hi⟩, rfl⟩ := h
+    refine ⟨⟨⟨h.cur, h.com, fun e he => ?_, fun k hk => ?_, ⟨fun r hr => ?_, fun r hr => ?_⟩, h.link, hJ.app _ _ _ h.extra⟩, hi⟩, ?_⟩
     · obtain ⟨h1, h2, h3⟩ := h.cache e he
       exact ⟨h1, h2, List.mem_append_left _ h3⟩
     · simp only [List.mem_append, List.mem_singleton] at hk
@@ -695,16 +900,16 @@ theorem pres_newKey (hJ : JOk J) (n : Nat) (bad : Bool) : Pres (SysInv J) (newKe
       omega
     · show a.nextKid < a.nextKid + 1
       omega
-  · have fiA : FI (fun s => SysInv J s ∧ a.nextKid < s.nextKid) := fun s f h => ⟨SysInv.fi s f h.1, h.2⟩
-    refine Triple.bind (Q' := fun _ s => SysInv J s ∧ a.nextKid < s.nextKid)
-      (Triple.conseq (Triple.tick fiA) (fun _ h => h) (fun _ _ h => h) (fun _ _ h => h.1)) fun _ => ?_
-    refine Triple.bind (Q' := fun _ s => SysInv J s ∧ a.nextKid < s.nextKid)
-      (fun s h => h) fun _ => ?_
-    refine Triple.bind (Q' := fun _ s => SysInv J s ∧ a.nextKid < s.nextKid) ?_ fun _ => ?_
+  · refine Triple.bind (Q' := fun _ => B)
+      (Triple.conseq (Triple.tick fiB) (fun _ h => h) (fun _ _ h => h) (fun _ _ h => h.1.1)) fun _ => ?_
+    refine Triple.bind (Q' := fun _ => B) (fun s h => h) fun _ => ?_
+    refine Triple.bind (Q' := fun _ => B) ?_ fun _ => ?_
     · unfold raiseIf; split
-      · exact Triple.raise fun _ h => h.1
+      · exact Triple.raise fun _ h => h.1.1
       · exact Triple.pure fun _ h => h
-    · refine Triple.bind (Q' := fun _ s => SysInv J s) (triple_execInsertKey i.rid ⟨n, a.nextKid⟩) fun _ => ?_
+    · refine Triple.bind (Q' := fun _ s => SysInv J s)
+        (Triple.conseq (triple_execInsertKey i.rid ⟨n, a.nextKid⟩)
+          (fun s h => ⟨h.1.1, h.2, i, h.1.2.1, rfl, h.1.2.2⟩) (fun _ _ h => h) (fun _ _ h => h)) fun _ => ?_
       exact Pres.bind (pres_execInsertCert _ _) fun _ =>
         Pres.bind pres_commit fun _ => Pres.bind Pres.getS fun _ =>
         Pres.bind (Pres.whenM (Pres.bind (pres_execSetDefaultKey _) fun _ => pres_commit)) fun _ =>
@@ -727,11 +932,12 @@ theorem pres_setDefaultCert (v : KeyName) (c : CertName) : Pres (SysInv J) (setD
   Pres.bind (pres_lookupKey v) fun _ => Pres.bind (pres_execSetDefaultCert c) fun _ => pres_commit
 
 theorem pres_clearCache : Pres (SysInv J) clearCache :=
-  Pres.modS fun _ h => ⟨h.cur, h.com, (fun _ he => by cases he), h.kids, h.keyKids, h.extra⟩
+  Pres.modS fun _ h => ⟨h.cur, h.com, (fun _ he => by cases he), h.kids, h.keyKids, h.link, h.extra⟩
 
 theorem pres_delCert (c : CertName) : Pres (SysInv J) (delCert c) :=
   Pres.bind pres_tick fun _ =>
-    Pres.bind (pres_modCur (fun _ h => ⟨h.ids, h.keys, h.certs.delete _⟩) (fun _ _ h => h)) fun _ =>
+    Pres.bind (pres_modCur (fun _ h => ⟨h.ids, h.keys, h.certs.delete _⟩) (fun _ _ h => h)
+      (fun _ _ hl => hl.delCerts _)) fun _ =>
     Pres.bind pres_commit fun _ => pres_clearCache
 
 theorem pres_tpmDelete (hJ : JOk J) (k : KeyName) :
@@ -739,94 +945,40 @@ theorem pres_tpmDelete (hJ : JOk J) (k : KeyName) :
   intro s h
   simp only [run_bind, run_modS, clearCache]
   exact ⟨h.cur, h.com, (fun _ he => by cases he), fun x hx => h.kids x (List.mem_filter.mp hx).1, h.keyKids,
-    hJ.filt _ _ _ h.extra⟩
+    h.link, hJ.filt _ _ _ h.extra⟩
 
 theorem pres_delKey (hJ : JOk J) (k : KeyName) : Pres (SysInv J) (delKey k) := by
   unfold delKey
-  exact Pres.bind (pres_lookupKey k) fun kr => Pres.bind pres_tick fun _ =>
-    Pres.bind (pres_modCur (fun _ h => ⟨h.ids, h.keys, h.certs.delete _⟩) (fun _ _ h => h)) fun _ =>
-    Pres.bind pres_tick fun _ =>
-    Pres.bind (pres_modCur (fun _ h => ⟨h.ids, h.keys.delete _, h.certs⟩)
-      (fun _ _ h => (List.mem_filter.mp h).1)) fun _ =>
-    Pres.bind pres_commit fun _ => Pres.bind pres_tick fun _ => pres_tpmDelete hJ k
+  refine Triple.bind (triple_lookupKey k) fun kr => ?_
+  let A : Sys → Prop := fun s => SysInv J s ∧ kr ∈ s.cur.keys.rows ∧ kr.name = k
+  have fiA : FI A := fun s f h => ⟨SysInv.fi s f h.1, h.2⟩
+  refine Triple.bind (Q' := fun _ => A)
+    (Triple.conseq (Triple.tick fiA) (fun _ h => h) (fun _ _ h => h) (fun _ _ h => h.1)) fun _ => ?_
+  -- after the certificates below the key row are gone, the key row can go
+  let B : Sys → Prop := fun s => A s ∧ ∀ c ∈ s.cur.certs.rows, c.owner ≠ kr.rid
+  have fiB : FI B := fun s f h => ⟨fiA s f h.1, h.2⟩
+  refine Triple.bind (Q' := fun _ => B) (Triple.modS fun s h => ?_) fun _ => ?_
+  · obtain ⟨h, hk⟩ := h
+    refine ⟨⟨⟨⟨h.cur.ids, h.cur.keys, h.cur.certs.delete _⟩, h.com, h.cache, h.kids, h.keyKids,
+      ⟨h.link.1.delCerts _, h.link.2⟩, h.extra⟩, hk⟩, fun c hc => ?_⟩
+    have := (List.mem_filter.mp hc).2
+    simpa using this
+  refine Triple.bind (Q' := fun _ => B)
+    (Triple.conseq (Triple.tick fiB) (fun _ h => h) (fun _ _ h => h) (fun _ _ h => h.1.1)) fun _ => ?_
+  refine Triple.bind (Q' := fun _ => SysInv J) (Triple.modS fun s h => ?_) fun _ => ?_
+  · obtain ⟨⟨h, hkm, hkn⟩, hc⟩ := h
+    refine ⟨⟨h.cur.ids, h.cur.keys.delete _, h.cur.certs⟩, h.com, h.cache, h.kids,
+      ⟨fun r hr => h.keyKids.1 r (List.mem_filter.mp hr).1, h.keyKids.2⟩, ⟨?_, h.link.2⟩, h.extra⟩
+    refine h.link.1.delKeys _ fun c hcm kr' hkr' hp => ?_
+    have hn : kr'.name = k := by simpa using hp
+    have : kr' = kr := eq_of_name_eq h.cur.keys.names hkr' hkm (hn.trans hkn.symm)
+    rw [this]; exact hc c hcm
+  exact Pres.bind pres_commit fun _ => Pres.bind pres_tick fun _ => pres_tpmDelete hJ k
 
 theorem pres_delKeys (hJ : JOk J) (ks : List KeyName) : Pres (SysInv J) (delKeys ks) := by
   induction ks with
   | nil => exact Pres.pure _
   | cons k r ih => exact Pres.bind (pres_delKey hJ k) fun _ => ih
-
-theorem pres_delIdentity (hJ : JOk J) (n : Nat) : Pres (SysInv J) (delIdentity n) := by
-  unfold delIdentity
-  exact Pres.bind (pres_lookupId n) fun _ => Pres.bind Pres.getS fun _ => Pres.bind (pres_delKeys hJ _) fun _ =>
-    Pres.bind pres_tick fun _ =>
-    Pres.bind (pres_modCur (fun _ h => ⟨h.ids.delete _, h.keys, h.certs⟩) (fun _ _ h => h)) fun _ =>
-    Pres.bind pres_commit fun _ => pres_clearCache
-
-theorem pres_delCertViaKey (v : KeyName) (c : CertName) : Pres (SysInv J) (delCertViaKey v c) :=
-  Pres.bind (pres_lookupKey v) fun _ => Pres.raise _
-
-theorem pres_reopen : Pres (SysInv J) reopen :=
-  Pres.modS fun _ h => ⟨h.com, h.com, (fun _ he => by cases he), h.kids, ⟨h.keyKids.2, h.keyKids.2⟩, h.extra⟩
-
-theorem pres_getSigner (sel : Sel) (loc : Option Nat) : Pres (SysInv J) (getSigner sel loc) := by
-  unfold getSigner
-  refine Triple.bind (Q' := fun a s => SysInv J s ∧ a.tpm = s.tpm) (fun s h => ⟨h, rfl⟩) fun a => ?_
-  refine Triple.bind (Q' := fun _ s => SysInv J s ∧ a.tpm = s.tpm)
-    (Triple.ofOpt (fun _ _ _ h => h) (fun _ _ h => h.1)) fun kc => ?_
-  obtain ⟨k, c⟩ := kc
-  dsimp only
-  split
-  · exact Triple.pure fun _ h => h.1
-  · refine Triple.bind (Q' := fun _ s => SysInv J s ∧ a.tpm = s.tpm) ?_ fun _ => ?_
-    · exact Triple.conseq (Triple.tick (P := fun s => SysInv J s ∧ a.tpm = s.tpm) fun s f h => ⟨SysInv.fi s f h.1, h.2⟩)
-        (fun _ h => h) (fun _ _ h => h) (fun _ _ h => h.1)
-    · split
-      · rename_i hk
-        refine Triple.bind (Q' := fun _ s => SysInv J s) (Triple.modS fun s h => ?_) fun _ => Triple.pure fun _ h => h
-        refine ⟨h.1.cur, h.1.com, fun e he => ?_, h.1.kids, h.1.keyKids, h.1.extra⟩
-        simp only [List.mem_append, List.mem_singleton] at he
-        rcases he with he | rfl
-        · exact h.1.cache e he
-        · exact ⟨rfl, rfl, by rw [← h.2]; exact hk⟩
-      · exact Triple.raise fun _ h => h.1
-
-theorem pres_prog (hJ : JOk J) (op : Op) : Pres (SysInv J) op.prog := by
-  cases op <;> simp only [Op.prog]
-  · exact Pres.bind (pres_newIdentity _) fun _ => Pres.pure _
-  · exact Pres.bind (pres_touchIdentity hJ _) fun _ => Pres.pure _
-  · exact Pres.bind (pres_newKey hJ _ _) fun _ => Pres.pure _
-  · exact Pres.bind (pres_importCert _ _) fun _ => Pres.pure _
-  · exact Pres.bind (pres_setDefaultIdentity _) fun _ => Pres.pure _
-  · exact Pres.bind (pres_setDefaultKey _ _) fun _ => Pres.pure _
-  · exact Pres.bind (pres_setDefaultCert _ _) fun _ => Pres.pure _
-  · exact Pres.bind (pres_delIdentity hJ _) fun _ => Pres.pure _
-  · exact Pres.bind (pres_delKey hJ _) fun _ => Pres.pure _
-  · exact Pres.bind (pres_delCert _) fun _ => Pres.pure _
-  · exact Pres.bind (pres_delCertViaKey _ _) fun _ => Pres.pure _
-  · exact Pres.bind (pres_getSigner _ _) fun _ => Pres.pure _
-  · exact Pres.bind pres_reopen fun _ => Pres.pure _
-
-/-- generic: an invariant that ignores the fault counter and is preserved by every operation program
-    holds along every history -/
-theorem step_of_pres {I : Sys → Prop} (hfi : FI I) (hp : ∀ op, Pres I (Op.prog op)) (s : Sys)
-    (of : Op × Option Nat) (h : I s) : I (step s of).2 := by
-  have := hp of.1 { s with fault := of.2 } (hfi s of.2 h)
-  unfold step
-  rcases hm : (Op.prog of.1).run { s with fault := of.2 } with ⟨_ | _, s'⟩ <;> simp only [hm] at this ⊢ <;>
-    exact hfi s' none this
-
-theorem run_of_pres {I : Sys → Prop} (hfi : FI I) (hp : ∀ op, Pres I (Op.prog op)) (s : Sys)
-    (ops : List (Op × Option Nat)) (h : I s) : I (run s ops) := by
-  induction ops generalizing s with
-  | nil => exact h
-  | cons o r ih => exact ih _ (step_of_pres hfi hp s o h)
-
-/-- the plain invariant -/
-abbrev Inv : Sys → Prop := SysInv fun _ _ => True
-
-/-- the invariant holds after every history, with any storage failures injected -/
-theorem sysInv_run (ops : List (Op × Option Nat)) : Inv (run Sys.init ops) :=
-  run_of_pres SysInv.fi (pres_prog JOk.trivial) _ ops (SysInv.init True.intro)
 
 /-! ### Part 4: what the operations achieve -/
 
@@ -1054,6 +1206,107 @@ theorem delIdentity_spec (n : Nat) (s0 : Sys) (hn : NamesU s0.cur.keys.rows) :
   refine Triple.modS fun s h => ?_
   obtain ⟨⟨⟨h1, h2, h3, h4, h4'⟩, h5⟩, h6⟩ := h
   exact { found := ⟨ir, h1, h2, h3, h4, h4'⟩, idsGone := h5, committed := h6, cache := rfl }
+
+/-! ### Part 3 (continued): the remaining operations, and every history -/
+
+theorem pres_delIdentity (hJ : JOk J) (n : Nat) : Pres (SysInv J) (delIdentity n) := by
+  unfold delIdentity
+  refine Triple.bind (triple_lookupId n) fun ir => ?_
+  let A : Sys → Prop := fun s => SysInv J s ∧ ir ∈ s.cur.ids.rows ∧ ir.name = n
+  refine Triple.bind (Q' := fun a s => A s ∧ a = s) Triple.getS fun a => ?_
+  -- after the loop no key row is left below the identity row
+  let B : Sys → Prop := fun s => A s ∧ ∀ kr ∈ s.cur.keys.rows, kr.owner ≠ ir.rid
+  have fiB : FI B := fun s f h => ⟨⟨SysInv.fi s f h.1.1, h.1.2⟩, h.2⟩
+  refine Triple.bind (Q' := fun _ => B) ?_ fun _ => ?_
+  · intro s h
+    obtain ⟨⟨hi, hir, hn⟩, rfl⟩ := h
+    have h1 := pres_delKeys hJ (keyIter a.cur ir.rid) a hi
+    have h2 := delKeys_spec (keyIter a.cur ir.rid) a hi.cur.keys.names a ⟨rfl, rfl, rfl⟩
+    rcases hm : (delKeys (keyIter a.cur ir.rid)).run a with ⟨e | u, s'⟩ <;> simp only [hm] at h1 h2 ⊢
+    · exact h1
+    · refine ⟨⟨h1, by rw [h2.ids]; exact hir, hn⟩, fun kr hkr hown => ?_⟩
+      rw [h2.keys, List.mem_filter] at hkr
+      have hmem : kr.name ∈ keyIter a.cur ir.rid :=
+        List.mem_map.mpr ⟨kr, List.mem_filter.mpr ⟨hkr.1, by simp [hown]⟩, rfl⟩
+      have := hkr.2
+      simp only [Bool.not_eq_true', decide_eq_false_iff_not] at this
+      exact this hmem
+  refine Triple.bind (Q' := fun _ => B)
+    (Triple.conseq (Triple.tick fiB) (fun _ h => h) (fun _ _ h => h) (fun _ _ h => h.1.1)) fun _ => ?_
+  refine Triple.bind (Q' := fun _ => SysInv J) (Triple.modS fun s h => ?_) fun _ => ?_
+  · obtain ⟨⟨h, hir, hn⟩, hk⟩ := h
+    refine ⟨⟨h.cur.ids.delete _, h.cur.keys, h.cur.certs⟩, h.com, h.cache, h.kids, h.keyKids, ⟨?_, h.link.2⟩, h.extra⟩
+    refine h.link.1.delIds _ fun kr hkr ir' hir' hp => ?_
+    have hn' : ir'.name = n := by simpa using hp
+    have : ir' = ir := eq_of_name_eq h.cur.ids.names hir' hir (hn'.trans hn.symm)
+    rw [this]; exact hk kr hkr
+  exact Pres.bind pres_commit fun _ => pres_clearCache
+
+theorem pres_delCertViaKey (v : KeyName) (c : CertName) : Pres (SysInv J) (delCertViaKey v c) :=
+  Pres.bind (pres_lookupKey v) fun _ => Pres.raise _
+
+theorem pres_reopen : Pres (SysInv J) reopen :=
+  Pres.modS fun _ h => ⟨h.com, h.com, (fun _ he => by cases he), h.kids, ⟨h.keyKids.2, h.keyKids.2⟩, ⟨h.link.2, h.link.2⟩, h.extra⟩
+
+theorem pres_getSigner (sel : Sel) (loc : Option Nat) : Pres (SysInv J) (getSigner sel loc) := by
+  unfold getSigner
+  refine Triple.bind (Q' := fun a s => SysInv J s ∧ a.tpm = s.tpm) (fun s h => ⟨h, rfl⟩) fun a => ?_
+  refine Triple.bind (Q' := fun _ s => SysInv J s ∧ a.tpm = s.tpm)
+    (Triple.ofOpt (fun _ _ _ h => h) (fun _ _ h => h.1)) fun kc => ?_
+  obtain ⟨k, c⟩ := kc
+  dsimp only
+  split
+  · exact Triple.pure fun _ h => h.1
+  · refine Triple.bind (Q' := fun _ s => SysInv J s ∧ a.tpm = s.tpm) ?_ fun _ => ?_
+    · exact Triple.conseq (Triple.tick (P := fun s => SysInv J s ∧ a.tpm = s.tpm) fun s f h => ⟨SysInv.fi s f h.1, h.2⟩)
+        (fun _ h => h) (fun _ _ h => h) (fun _ _ h => h.1)
+    · split
+      · rename_i hk
+        refine Triple.bind (Q' := fun _ s => SysInv J s) (Triple.modS fun s h => ?_) fun _ => Triple.pure fun _ h => h
+        refine ⟨h.1.cur, h.1.com, fun e he => ?_, h.1.kids, h.1.keyKids, h.1.link, h.1.extra⟩
+        simp only [List.mem_append, List.mem_singleton] at he
+        rcases he with he | rfl
+        · exact h.1.cache e he
+        · exact ⟨rfl, rfl, by rw [← h.2]; exact hk⟩
+      · exact Triple.raise fun _ h => h.1
+
+theorem pres_prog (hJ : JOk J) (op : Op) : Pres (SysInv J) op.prog := by
+  cases op <;> simp only [Op.prog]
+  · exact Pres.bind (pres_newIdentity _) fun _ => Pres.pure _
+  · exact Pres.bind (pres_touchIdentity hJ _) fun _ => Pres.pure _
+  · exact Pres.bind (pres_newKey hJ _ _) fun _ => Pres.pure _
+  · exact Pres.bind (pres_importCert _ _) fun _ => Pres.pure _
+  · exact Pres.bind (pres_setDefaultIdentity _) fun _ => Pres.pure _
+  · exact Pres.bind (pres_setDefaultKey _ _) fun _ => Pres.pure _
+  · exact Pres.bind (pres_setDefaultCert _ _) fun _ => Pres.pure _
+  · exact Pres.bind (pres_delIdentity hJ _) fun _ => Pres.pure _
+  · exact Pres.bind (pres_delKey hJ _) fun _ => Pres.pure _
+  · exact Pres.bind (pres_delCert _) fun _ => Pres.pure _
+  · exact Pres.bind (pres_delCertViaKey _ _) fun _ => Pres.pure _
+  · exact Pres.bind (pres_getSigner _ _) fun _ => Pres.pure _
+  · exact Pres.bind pres_reopen fun _ => Pres.pure _
+
+/-- generic: an invariant that ignores the fault counter and is preserved by every operation program
+    holds along every history -/
+theorem step_of_pres {I : Sys → Prop} (hfi : FI I) (hp : ∀ op, Pres I (Op.prog op)) (s : Sys)
+    (of : Op × Option Nat) (h : I s) : I (step s of).2 := by
+  have := hp of.1 { s with fault := of.2 } (hfi s of.2 h)
+  unfold step
+  rcases hm : (Op.prog of.1).run { s with fault := of.2 } with ⟨_ | _, s'⟩ <;> simp only [hm] at this ⊢ <;>
+    exact hfi s' none this
+
+theorem run_of_pres {I : Sys → Prop} (hfi : FI I) (hp : ∀ op, Pres I (Op.prog op)) (s : Sys)
+    (ops : List (Op × Option Nat)) (h : I s) : I (run s ops) := by
+  induction ops generalizing s with
+  | nil => exact h
+  | cons o r ih => exact ih _ (step_of_pres hfi hp s o h)
+
+/-- the plain invariant -/
+abbrev Inv : Sys → Prop := SysInv fun _ _ => True
+
+/-- the invariant holds after every history, with any storage failures injected -/
+theorem sysInv_run (ops : List (Op × Option Nat)) : Inv (run Sys.init ops) :=
+  run_of_pres SysInv.fi (pres_prog JOk.trivial) _ ops (SysInv.init True.intro)
 
 /-! ### Part 5: without storage failures every operation ends committed -/
 
